@@ -739,6 +739,7 @@ func c16slowReaders(c *Ctx, plain, base string, vers []string, mkspec func(cache
 	}
 	rounds := c.N(8, 80)
 	var foundEarly, polls, roundsWithOverlap int64
+	var perRound []string
 	var smu sync.Mutex
 	c.Par(rounds, func(h int) {
 		r := c.RNG(fmt.Sprintf("slow-%d", h))
@@ -752,7 +753,7 @@ func c16slowReaders(c *Ctx, plain, base string, vers []string, mkspec func(cache
 			var ops []c16w.Op
 			delay := []int{1500, 4000, 9000}[r.IntN(3)]
 			// enough polls to span the writer's start-up skew and its slowed-down extraction
-			n := (1300 + r.IntN(600)) * 1000 / delay
+			n := (4000 + r.IntN(1000)) * 1000 / delay
 			for i := 0; i < n; i++ {
 				ops = append(ops, c16w.Op{Op: "fromcache", Ver: ver})
 			}
@@ -771,7 +772,7 @@ func c16slowReaders(c *Ctx, plain, base string, vers []string, mkspec func(cache
 		}
 		// the writer starts while the readers are polling
 		wsp := mkspec(cache, "run", [][]c16w.Op{{{Op: "fetch", Ver: ver}, {Op: "fromcache", Ver: ver}}})
-		wsp.SkewUS = []int{150000 + r.IntN(250000)}
+		wsp.SkewUS = []int{1200000 + r.IntN(800000)}
 		wenv := []string{fmt.Sprintf("VERIF_HOOK_DELAY=unzip.afterOpenFile=%d,unzip.afterMkdir=%d,fetch.afterPartial=%d,fetch.afterUnzip=%d", 15000+r.IntN(20000), r.IntN(20000), r.IntN(3000), r.IntN(20000))}
 		wg.Add(1)
 		go func() {
@@ -808,6 +809,7 @@ func c16slowReaders(c *Ctx, plain, base string, vers []string, mkspec func(cache
 			}
 		}
 		smu.Lock()
+		perRound = append(perRound, fmt.Sprintf("%d:%d/%d", h, before, after))
 		polls += np
 		if before > 0 && after > 0 {
 			roundsWithOverlap++
@@ -820,6 +822,8 @@ func c16slowReaders(c *Ctx, plain, base string, vers []string, mkspec func(cache
 	})
 	c.Set("slow_reader_rounds", rounds)
 	c.Set("slow_reader_polls", polls)
+	sort.Strings(perRound)
+	c.Set("slow_reader_polls_before_and_after_the_writer_returned_per_round", perRound)
 	c.Set("slow_reader_rounds_overlapping_the_fetch", roundsWithOverlap)
 	c.Set("slow_reader_found_before_writer_returned", foundEarly)
 	if roundsWithOverlap*2 < int64(rounds) {
